@@ -79,15 +79,23 @@ def new (network : Network) (window : Nat) (queuePps : Option Nat) : Except SimF
 
 def agg (b : Bottleneck) (isClient : Bool) : Nat := if isClient then b.clientAgg else b.serverAgg
 
-/-- `NetworkBottleneck::sample` -/
-def sample (b : Bottleneck) (now : Int) (isClient : Bool) : Except SimFault ((Nat × Option Nat) × Bottleneck) := do
-  let (count, w) := (if isClient then b.clientWindow else b.serverWindow).add now
-  let b := if isClient then { b with clientWindow := w } else { b with serverWindow := w }
-  let delay ← if count > b.ppsLimit then durChk (b.ppsAddedDelay * ((count - b.ppsLimit) % 2 ^ 32)) else pure 0
-  if delay > 0 then
+/-- the extra delay of `sample` for a window count -/
+def ppsDelay (b : Bottleneck) (count : Nat) : Except SimFault Nat :=
+  if count > b.ppsLimit then durChk (b.ppsAddedDelay * ((count - b.ppsLimit) % 2 ^ 32)) else pure 0
+
+/-- the result of `sample` given the extra delay -/
+def sampleResult (b : Bottleneck) (delay : Nat) : Except SimFault ((Nat × Option Nat) × Bottleneck) :=
+  if delay > 0 then do
     let tot ← durChk (delay + b.network.delay)
     pure ((tot, some delay), { b with ghost := { b.ghost with ppsHit := b.ghost.ppsHit + 1 } })
   else pure ((b.network.delay, none), b)
+
+/-- `NetworkBottleneck::sample` -/
+def sample (b : Bottleneck) (now : Int) (isClient : Bool) : Except SimFault ((Nat × Option Nat) × Bottleneck) := do
+  let cw := (if isClient then b.clientWindow else b.serverWindow).add now
+  let b := if isClient then { b with clientWindow := cw.2 } else { b with serverWindow := cw.2 }
+  let delay ← ppsDelay b cw.1
+  sampleResult b delay
 
 def peekAggregateDelay (b : Bottleneck) (now : Int) : Nat :=
   match b.aggQueue.peek with
@@ -161,6 +169,23 @@ def shouldDelayedPacketPropAggDelay (sq : SimQueue) (isClient : Bool) (pkt : Sim
 
 /-! ### sim_network_stack -/
 
+/-- queue the aggregate delay, if any, caused by a bypass-replace of a blocked packet -/
+def replaceAgg (sq : SimQueue) (next entry : SimEvent) (net : Bottleneck) (now : Int) : Except SimFault Bottleneck :=
+  match aggDelayOnPaddingBypassReplace sq next.client now entry (net.agg next.client) with
+  | some bd => net.pushAggregateDelay bd now next.client
+  | none => pure net
+
+/-- bypass-replace: pop the blocked normal packet and queue it again flagged as bypass -/
+def replaceBypass (next : SimEvent) (sq : SimQueue) (qid : Queue) (stateBypassable : Bool) (net : Bottleneck) (now : Int) :
+    Except SimFault (SimQueue × Bottleneck) := do
+  let r ← sq.popBlocking qid stateBypassable next.client (net.agg next.client)
+  match r with
+  | none => .error (.unwrapNone 4)
+  | some (entry, sq) =>
+    let entry := { entry with bypass := true, replace := false }
+    let net ← replaceAgg sq next entry { net with ghost := { net.ghost with replacedBypass := net.ghost.replacedBypass + 1 } } now
+    pure (sq.pushSim entry, net)
+
 /-- the PaddingSent arm of `sim_network_stack`: replace a queued normal packet or queue a
     padding TunnelSent -/
 def netPaddingSent (next : SimEvent) (sq : SimQueue) (stateBypassable : Bool) (net : Bottleneck) (now : Int) :
@@ -173,39 +198,36 @@ def netPaddingSent (next : SimEvent) (sq : SimQueue) (stateBypassable : Bool) (n
       if queued.client == next.client && queued.event == .tunnelSent && !queued.containsPadding then
         if !next.bypass then
           .ok (sq, { net with ghost := { net.ghost with replaced := net.ghost.replaced + 1 } })
-        else do
-          let r ← sq.popBlocking qid stateBypassable next.client (net.agg next.client)
-          match r with
-          | none => .error (.unwrapNone 4)
-          | some (entry, sq) =>
-            let entry := { entry with bypass := true, replace := false }
-            let net := { net with ghost := { net.ghost with replacedBypass := net.ghost.replacedBypass + 1 } }
-            let net ← match aggDelayOnPaddingBypassReplace sq next.client now entry (net.agg next.client) with
-              | some bd => net.pushAggregateDelay bd now next.client
-              | none => pure net
-            pure (sq.pushSim entry, net)
+        else replaceBypass next sq qid stateBypassable net now
       else queueUp
     | (none, _) => queueUp
   else queueUp
+
+/-- queue the aggregate delay, if any, caused by the bottleneck delaying a packet -/
+def ppsAgg (sq : SimQueue) (next : SimEvent) (net : Bottleneck) (baseline : Option Nat) (now : Int) :
+    Except SimFault Bottleneck :=
+  match baseline with
+  | some ppsDelay =>
+    -- NB: the code passes the *client* aggregate delay for both sides
+    if shouldDelayedPacketPropAggDelay sq next.client next net.clientAgg then
+      net.pushAggregateDelay ppsDelay now next.client
+    else pure net
+  | none => pure net
+
+/-- the TunnelRecv queued for a TunnelSent with the sampled network delay -/
+def recvFor (next : SimEvent) (networkDelay : Nat) (now : Int) : SimEvent :=
+  if !next.containsPadding then
+    ⟨.tunnelRecv, max (next.time + networkDelay) now, !next.client, false, false, false⟩
+  else
+    ⟨.tunnelRecv, next.time + networkDelay, !next.client, true, false, false⟩
 
 /-- the TunnelSent arm of `sim_network_stack`: sample the network, maybe queue an aggregate
     delay, queue the TunnelRecv at the other side -/
 def netTunnelSent (next : SimEvent) (sq : SimQueue) (net : Bottleneck) (now : Int) :
     Except SimFault (SimQueue × Bottleneck) := do
-  let ((networkDelay, baseline), net) ← net.sample now next.client
-  let net ← match baseline with
-    | some ppsDelay =>
-      -- NB: the code passes the *client* aggregate delay for both sides
-      if shouldDelayedPacketPropAggDelay sq next.client next net.clientAgg then
-        net.pushAggregateDelay ppsDelay now next.client
-      else pure net
-    | none => pure net
-  if !next.containsPadding then
-    let reported := max (next.time + networkDelay) now
-    pure (sq.pushSim ⟨.tunnelRecv, reported, !next.client, false, false, false⟩, net)
-  else
-    let reported := next.time + networkDelay
-    pure (sq.pushSim ⟨.tunnelRecv, reported, !next.client, true, false, false⟩, net)
+  let r ← net.sample now next.client
+  let net ← ppsAgg sq next r.2 r.1.2 now
+  pure (sq.pushSim (recvFor next r.1.1 now), net)
 
 /-- `sim_network_stack(next, sq, state, recipient, network, current_time)`; of `state` only the
     `blocking_bypassable` flag is read, of `recipient` only the (zero) reporting delay.
